@@ -80,7 +80,7 @@ func loadedField(e *PPA, st *State, rv RV) (RV, *types.Var) {
 		if u, ok := rv.V.(*ssa.UnOp); ok && u.Op == token.MUL {
 			if fa, ok := e.resolveAddr(st, RV{rv.F, u.X}).V.(*ssa.FieldAddr); ok {
 				ra := e.resolveAddr(st, RV{rv.F, u.X})
-				return e.Resolve(st, RV{ra.F, fa.X}), fieldOf(fa)
+				return e.baseObj(st, RV{ra.F, fa.X}), fieldOf(fa)
 			}
 		}
 		rv = e.Resolve(st, rv)
@@ -92,7 +92,7 @@ func loadedField(e *PPA, st *State, rv RV) (RV, *types.Var) {
 		case *ssa.UnOp:
 			if v.Op == token.MUL {
 				if fa, ok := v.X.(*ssa.FieldAddr); ok {
-					return e.Resolve(st, RV{rv.F, fa.X}), fieldOf(fa)
+					return e.baseObj(st, RV{rv.F, fa.X}), fieldOf(fa)
 				}
 			}
 			return RV{}, nil
